@@ -12,7 +12,8 @@ func init() {
 			"(1-5 writable + 0-2 read-only, disk|proxy, loaded with LoadKeepServicesFromJSON; wanted 1-3; Retries 0-3; per service and attempt an outcome from " +
 			"{200 rep 1, 200 rep 2, 200 no header, 400, 403, 408, 429, 500, 502, 503, connection error before/after the body, slow}); " +
 			"stream enum = EVERY outcome assignment for 1 and 2 writable services (see notes: exhaustive:true for that sub-space only), stream random = beyond; " +
-			"stream refresh = multi-step cases on ONE KeepClient: a services list is loaded (LoadKeepServicesFromJSON, or discovery from a stub keep_services/accessible API whose answer is replaced and refreshed between steps), optionally used for a Put, then a refreshed list with the same uuids/addresses but flipped read_only / service_type flags (contrast: same flags, one service less), then a Put judged against the list loaded LAST; " +
+			"stream refresh = multi-step cases on ONE KeepClient: a services list is loaded (LoadKeepServicesFromJSON, or discovery from a stub keep_services/accessible API whose answer is replaced and refreshed between steps), optionally used for a Put, then a refreshed list with the same uuids/addresses but flipped read_only / service_type flags (contrast: same flags, one service less), then a Put judged against the list loaded LAST; on the discovery path 1 step in 8 has a slow API server: the keep_services/accessible call caused by the refresh request is held in flight, and either the Put is issued as soon as the refresh request has returned (put-during-fetch) or a second refresh request (kc.RefreshServiceDiscovery | RefreshServiceDiscovery) is made while the call is in flight and the Put is issued as soon as all refresh requests have returned (second-request-during-fetch) - judged against the list the API server had from the first refresh request on; " +
+			"stream shared-http-client = sequences of 2-3 KeepClients with HTTPClient == nil (the package's process-wide default http clients; disk-only | proxy-only list | KeepServiceURIs | mixed, ApiInsecure on/off, 1-3 writable + 0-1 read-only real loopback services), one Put each, in ONE process; the package's DefaultRequestTimeout / DefaultProxyRequestTimeout are set to 400 ms / 120 s before the first use, and a service of a pure proxy client may answer 200 after 1 s (far inside the timeout for proxies); a Put that took longer than 3/4 of the shortest timeout of its client type is not judged (watchdog, counted); " +
 			"oracle U1-U7 over the log of requests received/answers given by the fake services vs (locator, replicas, err); " +
 			"non-trivial = some answer other than '200 rep 1' was given or the Put is a wrong-hash/oversize PutHR; " +
 			"distinct = distinct (#writable, #read-only, disk/proxy class, wanted, retries, API, ok|fail, set of first-attempt outcomes that fired, highest attempt reached)",
@@ -20,6 +21,8 @@ func init() {
 			"a transport that cannot deliver the request body (body reader fails) reports an error to the client, as net/http does",
 			"fake services issue locators for exactly the hash and size they received; 200 without X-Keep-Replicas-Stored confirms one replica",
 			"built without -race (15x slower on this workload; the enumeration was preferred)",
+			"after RefreshServiceDiscovery() / kc.RefreshServiceDiscovery() has returned, the services in force for a Put are those of a keep_services/accessible answer requested after that refresh request (the stub API fixes its answer when the call arrives)",
+			"stream shared-http-client: a loopback request that is answered at once completes within 300 ms, else the Put is skipped (not judged); an answer delayed by 1 s is 'within the configured proxy timeout' of 120 s",
 		},
 	})
 }
